@@ -1,6 +1,6 @@
 (* Command dispatcher of the extracted engine. *)
 From Zorg Require Import Base.PyStr Base.Sexp Base.Res.
-From Zorg Require Import Model.FileGroups Model.Zid Model.Rename Model.Templates Model.SavedQ Model.ActionOpen Model.FileListener Model.NoteText Model.Executor Model.Move Model.QueryListener Model.Where Model.WriteBack Model.WorldWire Model.PageSyntax Model.Whitelist Model.QuerySyntax.
+From Zorg Require Import Model.FileGroups Model.Zid Model.Rename Model.Templates Model.SavedQ Model.ActionOpen Model.FileListener Model.NoteText Model.Executor Model.Move Model.QueryListener Model.Where Model.WriteBack Model.WorldWire Model.PageSyntax Model.Whitelist Model.QuerySyntax Model.PageText.
 
 Definition commands : list (str * (list sexp -> sexp)) :=
   [ (S "expand", cmd_expand)
@@ -23,6 +23,9 @@ Definition commands : list (str * (list sexp -> sexp)) :=
   ; (S "page_valid", cmd_page_valid)
   ; (S "create_wl", cmd_create_wl)
   ; (S "query_tree", cmd_query_tree)
+  ; (S "item_text", cmd_item_text)
+  ; (S "item_tidy", cmd_item_tidy)
+  ; (S "item_emit", cmd_item_emit)
   ; (S "query_spec", cmd_query_spec)
   ; (S "reindex_wl", cmd_reindex_wl)
   ; (S "to_string", cmd_to_string)
